@@ -166,8 +166,8 @@ class read_pkgs_integrates_time:
     max_paths = 20000
     explore_s = 300
     explore_s_thorough = 3000
-    args_thorough = dict(hs=Choice([ListT(_ItemT("hit"), n) for n in (0, 1, 2)]), order=Choice([Const(o) for o in ORDERS]))
-    assumes = ["shape-bounded: 0..2 tempo events, 0..1 (thorough: 2) hits, 0..1 holds in one package, two (thorough: three) file orders; measures and tempos symbolic reals",
+    args_thorough = dict(order=Choice([Const(o) for o in ORDERS]))
+    assumes = ["shape-bounded: 0..2 tempo events, 0..1 hits, 0..1 holds in one package, two (thorough: three) file orders; measures and tempos symbolic reals",
                "the O2JHitList / O2JHoldList / O2JBpmList constructors at the end are executed over the frame model (A2)"]
 
     def requires(tb, hs, ls, init_bpm, order):
